@@ -428,6 +428,28 @@ def check_rfc_copies(rep, config='default'):
                                  key='T-RFC-COPIES|%s|%s|%s' % (name, rname, w), sample='%s: %s x%d' % (where, rname, w) if not bad and 'set_long' in name or 'icf_body' in name else None)
 
 
+def check_cmp_units(rep):
+    import cmpunits
+    RR = rep.rule('L-CMP-UNITS', 'unit lint over every asm function: the index of the first differing position (bsf/tzcnt) is a BIT index when taken from the xor of two data words and a BYTE index when taken from a '
+                  'pmovmskb/k-mask; only a byte index (or a bit index shifted right by 3) may be added to a register that forms addresses; a value whose granularity depends on the path (join of the two kinds) is neither', floor=14, unit='functions')
+    nsites = 0
+    for un, u in sorted(asmdb.units('default').items()):
+        for fn, f in sorted(u.funcs.items()):
+            out, n = cmpunits.analyse(u, f)
+            if not n and not out:
+                continue
+            RR.instance()
+            nsites += n
+            for i, t, r in out:
+                RR.fail('%s: %s' % (un, u.where(i, f)), 'a %s is added to %s, which this function uses as a byte offset / pointer: the match length comes out %s' %
+                        ('bit index (first differing BIT of two data words)' if t == 'BIT' else 'first-difference index whose granularity (bit or byte) depends on the path taken to this instruction', r,
+                         '8 times too large' if t == 'BIT' else 'wrong on the paths that deliver the other granularity'), key='L-CMP-UNITS|%s|%s' % (fn, re.sub(r'\s+', ' ', i.text)))
+            if not out:
+                RR.ok(n, sample='%s: %d first-difference indices, all added as byte counts' % (fn, n) if fn.endswith('body_04') else None)
+    if nsites < 30:
+        raise AnalysisBroken('L-CMP-UNITS: only %d bsf/tzcnt sites typed (39 confirmed by hand)' % nsites)
+
+
 def main(tier):
     rep = Report('C01', tier, level='other')
     rep.undecided = UNDECIDED
@@ -440,6 +462,7 @@ def main(tier):
     rep.analysed = dict(configurations=CONFIGS, units=['igzip/hufftables_c.c', 'igzip/huff_codes.c', 'igzip/rfc1951_lookup.asm', 'igzip/data_struct2.asm', 'igzip/lz0a_const.asm', 'igzip/options.asm', 'include/igzip_lib.h'])
     check_rfc_tables(rep)
     check_rfc_copies(rep)
+    check_cmp_units(rep)
     for c in CONFIGS:
         lay = hufftables_layout(c)
         unpack = unpack_consts(c)
